@@ -60,17 +60,26 @@ def rule_filter(chk: Check, model, rid: str):
         ev = SymEval(model)
         r = ev.run_function(fi)
         ins = []  # (tuple term, condition under which it is inserted, event)
+        grouped = set()  # tables that keep the relation as {receiver: set of senders}
         for e in r.events:
             if e.kind == "local_append" and e.loops and e.term[0] == "tuple":
                 ins.append((e.term, e.guard, e))  # connections.add((n1, n2)) on the function's own set
                 continue
             if e.kind != "call" or not e.loops:
                 continue
+            if e.name.endswith(".add") and len(e.args) == 1 and e.recv is not None and e.recv[0] == "call" and T.call_name(e.recv).endswith(".setdefault") and len(e.recv[2]) == 2 \
+                    and e.recv[2][1] == ("call", "set", (), (), None):
+                # the relation kept per receiver, senders.setdefault(n2, set()).add(n1): the pair (n1, n2)
+                ins.append((("tuple", (e.args[0], e.recv[2][0])), e.guard, e))
+                grouped.add(e.recv[1][1] if isinstance(e.recv[1], tuple) and e.recv[1][0] == "attr" else T.sym(str(e.recv[1])[:-len(".setdefault")]))
+                continue
             if e.name.endswith(".add") and e.args and e.args[0][0] == "tuple":
                 ins.append((e.args[0], e.guard, e))
             elif e.name.endswith(".update") and e.args and e.args[0][0] == "comp" and e.args[0][2][0] == "tuple":
                 ins.append((e.args[0][2], T.mk_and([e.guard] + list(e.args[0][4])), e))
-        chk.floor(rid, f"{q} connection insertions", len(ins), 2)
+        # (one insertion per filter mode, or one insertion reached in both modes: counted per mode it is reachable in)
+        flag_ = S("filter_edges" if "Graph" in q else "filter_connections")
+        chk.floor(rid, f"{q} connection insertions", sum(1 for _, cond, _e in ins for v_ in (True, False) if T.assume(cond, flag_, v_) != T.FALSE), 2)
         for tup, cond, e in ins:
             ok = len(tup[1]) == 2
             if ok:
@@ -122,6 +131,11 @@ def rule_filter(chk: Check, model, rid: str):
             ok = len(vp) == 1 and vp[0].guard[0] == "not" and vp[0].guard[1] == ("in", vp[0].args[0], S("nodes"))
             chk.add(rid, "Graph.filter drops exactly the unselected vertices", ok, f"vertices are dropped under {T.show(vp[0].guard)[:120] if vp else None}, expected `k not in nodes`", chk.loc(fi))
             ok = len(ep) == 1 and ep[0].guard[0] == "not" and ep[0].guard[1][0] == "in" and ep[0].guard[1][1] == ep[0].args[0]
+            if not ok and len(ep) == 1 and len(grouped) == 1 and ep[0].args and ep[0].args[0][0] == "tuple" and len(ep[0].args[0][1]) == 2:
+                # with the relation kept per receiver, (n1, n2) is in it iff n2 is a key and n1 is in its set
+                X = next(iter(grouped))
+                n1_, n2_ = ep[0].args[0][1]
+                ok = flow.equivalent(ep[0].guard, T.mk_not(T.mk_and([("in", n2_, X), ("in", n1_, T.mk_index(X, n2_))])))
             chk.add(rid, "Graph.filter drops exactly the edges outside the connection set", ok, f"edges are dropped under {T.show(ep[0].guard)[:120] if ep else None}, expected `(n1, n2) not in connections`", chk.loc(fi))
             cp = [e for e in r.events if e.kind == "call" and e.name in ("self.vertices.copy", "self.edges.copy")]
             chk.add(rid, "Graph.filter works on copies", len(cp) == 2, "Graph.filter must copy vertices and edges before dropping entries", chk.loc(fi))
